@@ -73,6 +73,7 @@ Theorem C10_resize : forall start_addr new_size s,
   match mem_resize_section start_addr new_size s with
   | (Ok _, s') =>
       exists k a, nth_error (mem s) k = Some a /\ a_start a = start_addr /\
+                  (forall j b, (k < j)%nat -> nth_error (mem s) j = Some b -> a_start b <> start_addr) /\
                   (forall j b, j <> k -> nth_error (mem s) j = Some b ->
                                ~ overlaps (a_start b) (a_len b) start_addr new_size) /\
                   mem s' = replace_nth (mem s) k (resized a new_size) /\
